@@ -16,7 +16,7 @@ def run_config(chk, tier, cfgname):
                         "debt before/after a barrier-only callback (C10 polarity clause)"]
     n = 0
     for t in ("backward_barrier", "backward_barrier_weak", "forward_barrier", "forward_barrier_weak", "root_barrier"):
-        n += typestate.apply(chk, t + "-table", t, aspects=("safety", "panic"))
+        n += typestate.apply(chk, t + "-table", t, aspects=("safety", "weak", "panic"))
     na = typestate.apply(chk, "adoption-paths", "adopt", aspects=("safety", "panic"))
     nr = typestate.apply(chk, "root-paths", "root_paths", aspects=("safety", "panic"))
     paths = {r.pre["path"] for r in T.get("adopt")} | {r.pre["path"] for r in T.get("root_paths")
